@@ -156,6 +156,14 @@ func provOf(f *FuncInfo, e ast.Expr, dstObj, srcObj types.Object, depth int) pro
 					return p
 				case "Interface", "Addr", "Convert":
 					return p
+				case "Slice", "Slice3":
+					// a re-slice shares the backing array of its operand whatever its bounds are,
+					// and a later Append writes into that array when capacity allows: the whole
+					// value counts as the source's own storage (never a "part" made of scalars).
+					if p.kind == "src-part" {
+						p.kind = "src"
+					}
+					return p
 				}
 				return p
 			}
